@@ -1,4 +1,5 @@
 import A2lVerif.Lemmas.CheckerSpec
+import A2lVerif.Lemmas.CheckerGroups
 /-!
 # C11 — check(): total, sound and complete — on the structural model of `checker.rs`
 
@@ -138,6 +139,75 @@ theorem missing_sub_group_reported_twice (m : Module) (r : List Report) (h : che
     xrefTargets r = dangling (m.group.flatMap fun g => listSites g.subGroup m.groupNames) :=
   xt_groupStructure m r h
 
+/-! ## the group structure test (`GroupStructureError`) -/
+
+/-- the groups that list `k` under SUB_GROUP — once per listing, in list order -/
+example (gs : List Group) (k : Name) :
+    parentsOf gs k = gs.flatMap fun g => ((g.subGroup.getD []).filter (· == k)).map fun _ => g.name := rfl
+
+/-- the verdict on one group is a function of its ROOT flag and of the groups that list it: ROOT and listed (by several /
+    by one group), not ROOT and listed more than once, not ROOT and listed by nobody -/
+example (name : Name) (root : Bool) (parents : List Name) : groupVerdict name root parents =
+    if root && decide (parents.length > 1) then [.groupStructure name (s "root-multi") parents]
+    else if root && parents.length == 1 then [.groupStructure name (s "root-one") (parents.take 1)]
+    else if !root && decide (parents.length > 1) then [.groupStructure name (s "multi") parents]
+    else if !root && parents.isEmpty then [.groupStructure name (s "orphan") []]
+    else [] := rfl
+
+/-- **`check_group_structure` computes exactly this** — the `HashMap` bookkeeping (insert per group, `get_mut` + push per
+    SUB_GROUP entry, `get` per group) is functionally correct: the result is the missing sub-groups followed by one
+    verdict per group, from the ROOT flag the map holds for the group's name (`rootOf`: with duplicate names that of the
+    LAST group of the name) and the parents of that name -/
+theorem group_structure_closed_form (gs : List Group) :
+    checkGroupStructure gs = .ok ((groupLink gs (groupInit gs)).2 ++ gs.flatMap (verdictFor gs)) :=
+  checkGroupStructure_eq gs
+
+example (gs : List Group) (g : Group) : verdictFor gs g =
+    match rootOf gs g.name with
+    | some r => groupVerdict g.name r (parentsOf gs g.name)
+    | none => [] := rfl
+
+/-- with pairwise different group names every group is judged by its own ROOT flag -/
+theorem group_judged_by_own_flag (gs : List Group) (hnd : (gs.map (·.name)).Nodup) (g : Group) (hg : g ∈ gs) :
+    verdictFor gs g = groupVerdict g.name g.root (parentsOf gs g.name) := by
+  unfold verdictFor
+  rw [rootOf_of_nodup gs hnd g hg]
+
+/-- a well-formed group forest — different names, every ROOT group listed by nobody, every other group listed exactly
+    once — yields no `GroupStructureError` -/
+theorem well_formed_forest_no_verdict (gs : List Group) (hnd : (gs.map (·.name)).Nodup)
+    (h : ∀ g ∈ gs, (parentsOf gs g.name).length = if g.root then 0 else 1) :
+    checkGroupStructure gs = .ok (groupLink gs (groupInit gs)).2 := by
+  rw [group_structure_closed_form]
+  congr 1
+  have : gs.flatMap (verdictFor gs) = [] := by
+    apply List.flatMap_eq_nil_iff.2
+    intro g hg
+    rw [group_judged_by_own_flag gs hnd g hg]
+    have hl := h g hg
+    cases hr : g.root
+    · -- not ROOT: exactly one parent
+      simp only [hr, Bool.false_eq_true, if_false] at hl
+      rcases hp : parentsOf gs g.name with _ | ⟨p, _ | ⟨q, r⟩⟩
+      · simp [hp] at hl
+      · simp [groupVerdict, hp]
+      · simp [hp] at hl
+    · simp only [hr, if_true] at hl
+      have hp : parentsOf gs g.name = [] := List.eq_nil_of_length_eq_zero hl
+      simp [groupVerdict, hp]
+  rw [this, List.append_nil]
+
+/-- a group that is not ROOT and that no group lists is reported as an orphan (different names) -/
+theorem orphan_is_reported (gs : List Group) (hnd : (gs.map (·.name)).Nodup) (g : Group) (hg : g ∈ gs)
+    (hroot : g.root = false) (hnone : parentsOf gs g.name = []) :
+    ∃ r, checkGroupStructure gs = .ok r ∧ Report.groupStructure g.name (s "orphan") [] ∈ r := by
+  refine ⟨_, group_structure_closed_form gs, ?_⟩
+  apply List.mem_append_right
+  apply List.mem_flatMap.2
+  refine ⟨g, hg, ?_⟩
+  rw [group_judged_by_own_flag gs hnd g hg]
+  simp [groupVerdict, hroot, hnone]
+
 /-! ## non-vacuity: a module with one characteristic whose sixth AXIS_DESCR is a standard axis (the input that made the
     pinned tree panic), a dangling conversion, a `THIS.` reference outside a typedef, a group listing itself and a
     missing sub-group -/
@@ -166,5 +236,8 @@ example : (match checkModule demo with | .ok r => xrefTargets r | .panic => [s "
     [s "cm", s "THIS.x", s "nogroup", s "nogroup"] := by decide +kernel
 
 example : dangling (sitesOf demo) = [s "cm", s "THIS.x", s "nogroup", s "nogroup"] := by decide +kernel
+
+/-- the demo group lists itself and is ROOT: one parent (itself) -/
+example : parentsOf demo.group (s "g") = [s "g"] ∧ rootOf demo.group (s "g") = some true := by decide +kernel
 
 end A2l.Chk
